@@ -51,6 +51,13 @@ var c07Scalars = []string{
 	strings.Repeat("long-", 30) + "end", strings.Repeat("w ", 60) + "end", "a b", "nul-like\\0", "cr\rhere", "a b", "é",
 }
 
+// unquoted scalars (resolved by the YAML parser: numbers in all notations, booleans, nulls, timestamps, tagged values,
+// flow collections)
+var c07RawScalars = []string{"1", "0", "-3", "1.5", "true", "null", "1e3", "0x10", "010", "1e400", "9223372036854775808",
+	"18446744073709551616", "0o17", "1_000", "12:30:00", "2001-01-01", "2001-12-14t21:59:43.10-05:00", "~", "yes", "No", "on",
+	"0x1F", "0b11", "+1", "1.", "1.0", "1.50", "-0", "0.0", "1E3", "1.5e+3", "077", "08", "Null", "TRUE", "!!str 5",
+	"!!binary aGVsbG8=", "!!float 1", "'single'", "[1, 2]", "{a: 1}", "<<", "=", "1,000", "0x", "1e", "--", ".inf", ".nan", "1", "2", "3"}
+
 func (g *c07Bgen) scalar() string {
 	if g.rng.Chance(45) {
 		return g.rng.Pick([]string{"v", "a", "b", "hello", "1", "x"})
@@ -149,7 +156,7 @@ var c07DocKinds = []c07Kdoc{
 	}, false},
 	{"storage.k8s.io/v1", "StorageClass", func(g *c07Bgen, n string) string { return "provisioner: example.com/p\n" }, true},
 	{"example.com/v1", "Widget", func(g *c07Bgen, n string) string {
-		return "spec:\n  size: " + c07Yq(g.scalar()) + "\n  count: " + g.rng.Pick([]string{"1", "0", "-3", "1.5", "true", "null", "1e3", "0x10", "010"}) + "\n"
+		return "spec:\n  size: " + c07Yq(g.scalar()) + "\n  count: " + g.rng.Pick(c07RawScalars) + "\n"
 	}, false},
 	{"example.com/v1", "Widget", func(g *c07Bgen, n string) string {
 		return "spec:\n  items:\n  - " + c07Yq(g.scalar()) + "\n  - " + c07Yq(g.scalar()) + "\n  nested:\n    deep:\n      value: " + c07Yq(g.scalar()) + "\n  emptyMap: {}\n  emptyList: []\n"
@@ -574,7 +581,15 @@ func checkBuild07(r *Run, t tree07, verbose bool) string {
 	r.Count("buildMetadata", strings.Join(km.BuildMetadata, "+"))
 	out, err := m.AsYaml()
 	if err != nil {
-		report("reparse", "C07/reparse/asyaml-error", "ResMap.AsYaml failed: "+err.Error())
+		// nothing is emitted (e.g. an unquoted .inf / .nan cannot be marshalled): the build fails at emission,
+		// which is an error outcome, not a malformed output
+		ek := err.Error()
+		if i := strings.LastIndex(ek, "json: "); i >= 0 {
+			ek = ek[i:]
+		}
+		r.Count("emit_error", c07FirstLine(ek))
+		fmt.Fprintf(&log, "emission failed: %s\n", c07FirstLine(err.Error()))
+		r.AddEval(fmt.Sprint(t.Files), false)
 		return log.String()
 	}
 	if verbose {
